@@ -3,6 +3,7 @@
    Usage: hist_run hist          one history per input line, one result line per history
           hist_run hist-direct   the same without the memo table (slow)
           hist_run histd         histories of the recorded-deps model (HistDepsDefs.v), see the end of this comment
+          hist_run histf         histories of the depfile-only model (HistDepfileDefs.v), see the end of this comment
 
    [build], [apply_step], [clean_of] of HistDefs.v take the command function as a parameter.  `hist` passes a
    MEMOIZED [hcmd g] (a table from (statement, command hash, snapshot, output) to the hash value: the 64-bit arithmetic on
@@ -76,7 +77,16 @@
      hro=<hidden_reads_ordered> nru=<no_restat_upstream_of_deps> nip= hok= hp=<hist_present>, then per Build
       | B ok= ts=1 run=.. nodes=<x><q>:<content>:<mtime>:<loghash>:<logmtime>:<depsmtime>:<n>+<n>..
         q = content_of = clean_of_d (the clean build of the INLINED manifest); the last two fields are the node's deps-log
-        record: its mtime and the recorded nodes ("-:-" = no record, "<m>:-" = a record with no nodes) *)
+        record: its mtime and the recorded nodes ("-:-" = no record, "<m>:-" = a record with no nodes)
+
+   `histf` (HistDepfileDefs.v): the `histd` line, where deps kind 1 is a DEPFILE-ONLY statement (depfile = X without deps =;
+   its hidden reads in H= as well) next to kind 2 (deps = gcc); a Build step is HistDepfileDefs.fbuild (there is no
+   CleanNode-faithful variant of it: restat pruning by re-scan, dirty_now_d).  Additional step  D<e> = DeleteDepfile e (the
+   user removes the depfile of statement e).  Header: frag=<frag_ABD (to_log g) hid> (what the definitions need)
+   abf=<frag_ABF: no deps = gcc statement, where the theorems are> topo= fragi= hro= nru= (both on to_log g) nip=
+   hok=<fhist_ok> hp=<hist_present_f of the plain steps>.  Per Build:
+      | B ok= ts=1 run=.. df=<e>:<n>+<n>../<e>:.. nodes=(as histd)
+        df = the depfiles that exist and the names each lists ("-" = none; "<e>:-" = a depfile without names) *)
 open Histmodel
 
 let rec pos_of_int n : positive =
@@ -397,6 +407,73 @@ let histd_line (l : string) : string =
       | Some s -> ds := dapply_step mcmd g hid !ds s) xsteps;
   Buffer.contents buf
 
+
+(* ---- the depfile-only model (HistDepfileDefs.v): statements with deps kind 1 (depfile = X, no deps =) next to deps = gcc
+   ones; the depfiles on disk are part of the state.  Steps e / d / c / b, x (deps log lost), D<e> (DeleteDepfile e). *)
+let histf_line (l : string) : string =
+  let (kv, nnodes, ne, g) = parse_graph l in
+  let htab = Hashtbl.create 16 in
+  List.iter (fun it -> match String.split_on_char ':' it with
+      | [e; ns] -> Hashtbl.replace htab (int_of_string e) (nids '+' ns)
+      | _ -> failwith "bad H") (items ';' (field kv "H"));
+  let hid e = match Hashtbl.find_opt htab (int_of_nat e) with Some l -> l | None -> [] in
+  let xsteps = List.map (fun t ->
+      if t = "x" then `X
+      else if t.[0] = 'D' then `F (DeleteDepfile (nat_of_int (int_of_string (rest t))))
+      else match parse_step t with P s -> `F (FS s) | _ -> failwith ("step outside histf: " ^ t))
+      (items ',' (field kv "S")) in
+  let fsteps = List.concat_map (function `F s -> [s] | `X -> []) xsteps in
+  let hsteps = List.concat_map (function `F (FS s) -> [s] | _ -> []) xsteps in
+  let b x = if x then "1" else "0" in
+  let js sep l = if l = [] then "-" else String.concat sep l in
+  let memo = Hashtbl.create 256 in
+  let key e h sn o = String.concat "," (string_of_int (int_of_nat e) :: string_of_int (int_of_nat o) :: hex_of_n h ::
+                      List.map (fun (i, c) -> match c with Some c -> hex_of_n c | None -> "-") sn) in
+  let mcmd e h sn o =
+    let k = key e h sn o in
+    match Hashtbl.find_opt memo k with
+    | Some v -> v
+    | None -> let v = hcmd g e h sn o in Hashtbl.add memo k v; v in
+  let gi = inline g hid in
+  let buf = Buffer.create 256 in
+  Buffer.add_string buf
+    (Printf.sprintf "wf=%s frag=%s abf=%s topo=%s fragi=%s hro=%s nru=%s nip=%s hok=%s hp=%s"
+       (b (wf_b g (nat_of_int nnodes))) (b (frag_ABD (to_log g) hid)) (b (frag_ABF g hid)) (b (topo_ordered gi)) (b (frag_AB gi))
+       (b (hidden_reads_ordered (to_log g) hid)) (b (no_restat_upstream_of_deps (to_log g) hid)) (b (no_inputless_phony g))
+       (b (fhist_ok g fsteps)) (b (hist_present_f mcmd g hid (init_fstate g) hsteps)));
+  let nodes = List.init nnodes nat_of_int in
+  let es l = js "+" (List.map (fun e -> string_of_int (int_of_nat e)) l) in
+  let show fs =
+    let ds = fs.f_ds in
+    let st' = ds.d_h in
+    let nd = js "," (List.map (fun n ->
+        let cl = b (opt_content_eqb (content_of st' n) (clean_of_f mcmd g hid fs n)) in
+        let fl = match st'.h_disk n with
+          | Some (m, c) -> Printf.sprintf "1%s:%s:%d" cl (hex_of_n c) (int_of_z m)
+          | None -> Printf.sprintf "0%s:-:-" cl in
+        let lg = match st'.h_blog n with
+          | Some (h, m) -> Printf.sprintf "%s:%d" (hex_of_n h) (int_of_z m)
+          | None -> "-:-" in
+        let dp = match ds.d_deps n with
+          | Some (m, l) -> Printf.sprintf "%d:%s" (int_of_z m) (es l)
+          | None -> "-:-" in
+        fl ^ ":" ^ lg ^ ":" ^ dp) nodes) in
+    let df = js "/" (List.concat_map (fun e -> match fs.f_df (nat_of_int e) with
+        | Some l -> [Printf.sprintf "%d:%s" e (es l)] | None -> []) (List.init ne (fun i -> i))) in
+    Printf.sprintf "df=%s nodes=%s" df nd in
+  let fs = ref (init_fstate g) in
+  List.iter (fun s ->
+      match s with
+      | `X -> fs := flift (fun ds -> List.fold_left drop_deps ds nodes) !fs
+      | `F (FS (Build t)) ->
+        (match fbuild mcmd g hid !fs t with
+         | Some fs' ->
+           Buffer.add_string buf (Printf.sprintf " | B ok=1 ts=1 run=%s %s" (es (trace_delta !fs.f_ds.d_h fs'.f_ds.d_h)) (show fs'));
+           fs := fs'
+         | None -> Buffer.add_string buf (Printf.sprintf " | B ok=0 ts=1 run=- %s" (show !fs)))
+      | `F s -> fs := fapply_step mcmd g hid !fs s) xsteps;
+  Buffer.contents buf
+
 let each_line f =
   try while true do
     let l = input_line stdin in
@@ -407,4 +484,5 @@ let () = match Sys.argv.(1) with
   | "hist" -> each_line (hist_line false)
   | "hist-direct" -> each_line (hist_line true)
   | "histd" -> each_line histd_line
+  | "histf" -> each_line histf_line
   | c -> prerr_endline ("unknown component " ^ c); exit 2
